@@ -37,7 +37,7 @@ TraceNext ==
   \/ IsEvent("zero_grad") /\ ZeroGrad /\ Logged
   \/ IsEvent("backward")  /\ Backward /\ Logged
   \/ IsEvent("step")      /\ (\E b \in BOOLEAN : Step(b)) /\ Logged
-  \/ IsEvent("eval")      /\ ModelEval /\ Logged
+  \/ IsEvent("eval")      /\ (ModelEval \/ CallbackEval) /\ Logged
   \/ IsEvent("ng_enter")  /\ NoGradEnter /\ Logged
   \/ IsEvent("ng_exit")   /\ NoGradExit /\ Logged
   \/ IsEvent("epoch_end") /\ EpochEnd /\ Logged /\ hlen' = Ev.hl
